@@ -20,10 +20,11 @@ META = {
         "on a long-lived object (allowed cross-call state: _connection, _extra_headers, verbose, the header stack); C19.4 the "
         "constructors of the three transports, of the Unix connection and of TransportError run the constructors of their bases on every "
         "normal path (the stdlib transport sets up the connection cache that close() and the recovery rely on; TransportError carries "
-        "URL and status through ProtocolError), and UnixTransport.make_connection returns the connection it caches; C19.5 on the non-200 path the response is only drained (response.read()) under the true edge of getheader(`content-length`) with an absent or falsy default - a reply without a declared length is never read to the end of the stream, so the TransportError is always reached."),
+        "URL and status through ProtocolError), and UnixTransport.make_connection returns the connection it caches; C19.5 on the non-200 path the response is only drained (response.read()) under the true edge of getheader(`content-length`) with an absent or falsy default - a reply without a declared length is never read to the end of the stream, so the TransportError is always reached. C19.6 (imported from C02.6) a non-JSON body is a parse error because the default backend decodes with json.loads itself."),
     "does_not_decide": "recovery within one call, stale/foreign responses caused by the http.client connection state "
                        "machine or by the retry inside xmlrpc.client.Transport.request (external fault-sequence behaviour).",
-    "rules": {"C19.1": "handler structure + dominance", "C19.2": "normalised status test + dominance + raise-site arguments",
+    "rules": {"C19.6": "imported C02.6 (backend options, loader)",
+              "C19.1": "handler structure + dominance", "C19.2": "normalised status test + dominance + raise-site arguments",
               "C19.3": "provenance of returned values + store scan against the allowed cross-call state table (spec A.10)",
               "C19.4": "must-call of base constructors on normal paths; provenance of make_connection's result",
               "C19.5": "guards of the drain call (dominating branches, constant default)"},
@@ -247,6 +248,24 @@ def check(ck):
     _cm19.check_no_shared_mutable(ck, "C19.3", modules=("jsonrpc",))
     ck.floor("C19.3", 8)
 
+    # the client's own exceptions are not OSErrors: xmlrpc.client.Transport.request retries a request when single_request raises an
+    # OSError whose errno is ECONNRESET / ECONNABORTED / EPIPE, and OSError.__init__(code, text) stores the first argument as errno
+    import builtins as _bi
+    for cname in ("ProtocolError", "AppError", "TransportError"):
+        ci_ = prog.classes.get("jsonrpc." + cname)
+        if ci_ is None:
+            raise AnalysisError("anchor vanished: jsonrpc.%s" % cname)
+        bad_b = []
+        for b_ in ci_.bases:
+            nm_ = b_.split(":")[-1].split(".")[-1] if isinstance(b_, str) else ""
+            k_ = getattr(_bi, nm_, None)
+            if (isinstance(k_, type) and issubclass(k_, OSError)) or nm_ in ("error", "timeout", "HTTPException"):
+                bad_b.append(nm_)
+        ck.require(not bad_b, "C19.4", "jsonrpc.%s: bases" % cname, "not an OSError",
+                   "%s derives from %s: the standard-library transport treats an OSError raised by single_request as a connection fault and, "
+                   "when its errno (= the first constructor argument, here the HTTP status) is a reset / abort / pipe code, silently sends the "
+                   "request again instead of letting the error reach the caller" % (cname, bad_b), ci_.node.lineno and "jsonrpclib/jsonrpc.py:%d" % ci_.node.lineno)
+
     # ---- C19.4 constructor chain of the client classes; the Unix transport returns the connection it caches ----------------------
     from rules import common
     common.check_base_constructors(ck, "C19.4", classes=[k for k in common.BASE_INITS if k.startswith("jsonrpc.")])
@@ -283,3 +302,8 @@ def check(ck):
     ck.require(okk, "C19.4", "%s: cache entry" % q.fn(fmc), "self._connection = host, UnixHTTPConnection(path)",
                "the connection cache is not filled with (host key, new Unix connection)", q.loc(fmc, fmc.node))
     ck.floor("C19.4", 8)
+
+    # ---- C19.6 non-JSON bodies are errors (shared with C02.6) ------------------------------------------------------------------
+    from rules import c02 as _c02t9, common as _cm196
+    _cm196.import_rules(ck, _c02t9, {"C02.6": "C19.6"})
+    ck.floor("C19.6", 3)
